@@ -96,6 +96,39 @@ CLAIMED = {
    note="Holds for the repaired code (fix: c16018e: input beyond libtermkey's 256-byte buffer was dropped when pushed in one call); pinned code refuted "
         "(C20_chunking_refuted_pinned). The tokenizer hypotheses are exercised (not proved) on every run. Inter-byte timeouts are outside the property's quantifier.",
    design="6/C20", technique="Coq proof over an abstract tokenizer (Section variable with explicit hypotheses); real terminal fed all 2-cuts and random k-cuts; reference tokenization by the system libtermkey; ASan/UBSan"),
+ "C09": dict(
+   text="Machine-checked proof (Coq 8.16, no axioms) against a Coq SPECIFICATION of a VT-conformant screen (VT.v: grid, cursor with pending wrap, DECSTBM/"
+        "DECSLRM margins, ICH/DCH/IL/DL/DECIC/DECDC, ECH, SGR): for every screen size, every in-range request and every capability combination the bytes "
+        "of the xterm driver model, lexed (lex(render ts) = ts, C09_lex_render/C09_bytes) and run on the VT, have exactly the requested effect: C09_goto, "
+        "C09_move, C09_print, C09_clear, C09_scroll (every strategy: moves exactly the rectangle, blanks the vacated cells, touches nothing else, no "
+        "margins left), C09_scroll_fail_silent, C09_erase_partial, and C09_sequence_partial by induction over arbitrary request lists. Tie: the real xterm "
+        "driver with capabilities set through the real probing path, model bytes compared byte-for-byte with the C's, the C's bytes judged by the extracted VT.",
+   note="Holds for the repaired code (fix: a5d58a0, ddb4d18). One recorded known finding (C09-erasech-rv-right-edge): the erase/sequence theorems exclude exactly "
+        "the trigger class (reverse-video erase, cursor to stay, ending at the right edge), which is refuted by C09_erase_refuted. Trusted: VT.v as the reading of "
+        "DEC STD 070 / xterm ctlseqs; Csi.v; model XtermDefs.v tied by differential testing; extraction; in-range arguments as the property states.",
+   design="6/C09", technique="Coq proof of driver-model bytes against an in-Coq VT screen specification (lexer/renderer round trip + per-request effect theorems + induction over sequences); byte-exact differential check with the real driver"),
+ "C10": dict(
+   text="Machine-checked proof (Coq 8.16, no axioms): invariant between the cached pen and the VT's SGR state, preserved by every setpen/chpen for every colour "
+        "capability (8/16/256/RGB), both sub-parameter separators and every pen (C10_setpen, C10_chpen, C10_history by induction over arbitrary pen histories, "
+        "C10_rendition: the VT's rendition equals the logical pen projected through palette conversion / RGB capability), C10_noop_silent (no bytes when "
+        "nothing changes), C10_params_fit against the array capacity RE-TRANSLATED from the source on every run (and C10_params_fit_tight: 19 are needed). "
+        "Palette table re-translated from xterm-palette.inc. Tie: byte-exact comparison with the real xterm driver, and a harness driver with configurable "
+        "colour count for the down-conversion layer of term.c.",
+   note="Holds for the repaired code (fix: a693370, 8c332bb, 1d790d8). Styles with no SGR (SIZEPOS small, curly underline without colon support, altfont 10) "
+        "are projected to what is representable, as stated in the spec. Trusted: VT.v SGR semantics; models TermPenDefs.v/XtermDefs.v tied by differential "
+        "testing; tools/tables/palette.py; extraction.",
+   design="6/C10", technique="Coq invariant proof (cached pen vs VT SGR state) by induction over pen histories; tables and array capacity re-translated from C; byte-exact differential check"),
+ "C12": dict(
+   text="Machine-checked proof (Coq 8.16, no axioms) over the model of the xterm driver's mode shadow, setctl/getctl, pause/resume/teardown and the toplevel's "
+        "setup: for EVERY history of control settings, pen changes and pause/resume cycles ending in teardown or destruction, the VT interpreting the whole "
+        "output ends in its initial mode state and default rendition, resume re-establishes exactly the logical modes and pen, and getctl reads the value "
+        "last set - C12_history_nokp / C12_balanced_nokp / C12_toplevel_balanced_nokp with the application keypad left out of the comparison, "
+        "C12_history_full_partial at full strength for histories that never switch the keypad on. Tie: byte-exact comparison with the real driver and with "
+        "a real Tickit instance's setup/teardown.",
+   note="Holds for the repaired code (fix: edcc019). One recorded known finding (C12-keypad-app-not-recorded, refuted by C12_history_refuted / "
+        "C12_getctl_refuted; t/60 pins the deviant teardown bytes): attributed only when the case switches the keypad on AND the oracle passes it with the "
+        "keypad masked. Assumes the terminal starts in its power-on mode state. Trusted: VT.v mode semantics; model; extraction.",
+   design="6/C12", technique="Coq proof over all control/pen/pause histories against VT mode state; byte-exact differential check with the real driver and toplevel instance; masked oracle for the recorded finding"),
 }
 
 NA_REASON = "not yet built in this revision: model/proof/correspondence for this property are scheduled (DESIGN.md section 10)"
